@@ -26,6 +26,9 @@ CFG = """CONSTANTS Mode = "%(mode)s"
  InFile = "%(inf)s"
  Seed = %(seed)d
  RawFirst = %(rawfirst)s
+ OpOffs = %(opoffs)s
+ OpSizes = %(opsizes)s
+ MaxOps = %(maxops)d
  PairLen = %(pairlen)d
  Split = TRUE
 INIT Init
@@ -36,8 +39,9 @@ CHECK_DEADLOCK FALSE
 
 
 def cfg(mode, out, srcs="{}", tgts="{}", minlen=0, maxlen=0, sample=0, inf="", seed=1, pairlen=0,
-        inv="SizeExact PrefixFree NoTrailing", rawfirst="{0,1,2,3,127,128,144,145,176,255,256}"):
-    return CFG % dict(rawfirst=rawfirst, mode=mode, alpha=ALPHA, srcs=srcs, tgts=tgts, minlen=minlen, maxlen=maxlen, sample=sample,
+        inv="SizeExact PrefixFree NoTrailing", rawfirst="{0,1,2,3,127,128,144,145,176,255,256}",
+        opoffs="{}", opsizes="{}", maxops=0):
+    return CFG % dict(rawfirst=rawfirst, opoffs=opoffs, opsizes=opsizes, maxops=maxops, mode=mode, alpha=ALPHA, srcs=srcs, tgts=tgts, minlen=minlen, maxlen=maxlen, sample=sample,
                       out=out, inf=inf, seed=seed, inv=inv, pairlen=pairlen)
 
 
@@ -64,6 +68,16 @@ def run(ctx):
             ("body1", cfg("body", "delta_body1.ndjson", srcs="{3,145}", maxlen=body_len + 1, sample=samp, seed=ctx.seed)),
             ("body2", cfg("body", "delta_body2.ndjson", srcs="{65680}", maxlen=body_len + 1, sample=samp, seed=ctx.seed)),
         ]
+
+    # well-formed command sequences (order of copies: forward, backward, backward then forward again)
+    if th:
+        runs.append(("ops0", cfg("ops", "delta_ops0.ndjson", srcs="{145}", opoffs="{0,1,2,127,144}", opsizes="{1,2}", maxops=4,
+                                 inv="SizeExact PrefixFree NoTrailing OpsVerdict")))
+        runs.append(("ops1", cfg("ops", "delta_ops1.ndjson", srcs="{65680}", opoffs="{0,1,144,65536,65679}", opsizes="{1,65536}", maxops=3,
+                                 inv="SizeExact PrefixFree NoTrailing OpsVerdict")))
+    else:
+        runs.append(("ops0", cfg("ops", "delta_ops0.ndjson", srcs="{145,65680}", opoffs="{0,1,127,144,65679}", opsizes="{1}", maxops=3,
+                                 inv="SizeExact PrefixFree NoTrailing OpsVerdict")))
 
     def one(item):
         name, text = item
@@ -108,6 +122,8 @@ def run(ctx):
                          "body_sampled_len": body_len + 1, "body_sample_per_src_tgt": samp,
                          "source_lengths": [0, 1, 2, 3, 145, 65680] if th else [0, 1, 3, 145, 65680],
                          "target_sizes": {"small": [0, 1, 2, 3, 4], "145": [1, 3, 144, 145], "65680": [65536, 65537, 131072]},
+                         "command_sequences": "<= 3 (quick) / 4 (thorough) well-formed copy/insert commands, copy offsets {0,1,127,144,65536,65679}, "
+                                              "exact target size and one byte more (sources 145 and 65680)",
                          "roundtrip_pairs_max_symbols": pairlen, "roundtrip_scales": [1, 16, 65552]}
     ctx.cov["exhaustive"] = True
     ctx.cov["rule"] = ("every byte string over the 10 representative bytes up to the bound is one TLC state (raw: the whole delta; body: the "
